@@ -119,7 +119,9 @@ func ParseHeaderDirective(header http.Header) *HeaderDirectives {
 			if t, err := http.ParseTime(value); err == nil {
 				hd.Expires.value = typeutils.Some(t)
 			} else {
-				slog.Debug("Error parsing Expires header", "error", err, "value", value)
+				// An invalid date, especially "0", means "already expired" (RFC 9111 section 5.3)
+				slog.Debug("Error parsing Expires header, treating the response as already expired", "error", err, "value", value)
+				hd.Expires.value = typeutils.Some(time.Time{})
 			}
 		}
 	}
